@@ -228,14 +228,14 @@ def work(item, tier, seed):
 
 
 def items(tier):
-    from mc.family import FAMILY, programs, tree_size
+    from mc.family import FAMILY, QUICK_GENERATED, programs, tree_size
     from mc import ref as R
 
     its = []
     # programs whose full choice tree exceeds 5000 leaves are explored by C01/C08 only (every subset /
     # selection multiplies the tree)
     for pname in programs(tier, max_tree=5000):
-        if "[" in pname and (pname.count("[") > 1 or tree_size(pname) > 300):
+        if "[" in pname and pname not in QUICK_GENERATED and (pname.count("[") > 1 or tree_size(pname) > 100):
             continue  # generated compositions: depth 1 with small trees here; all of them in C01 / C03
         prog, argsl, _t = FAMILY[pname]
         k = len(R.leaf_paths(prog))
